@@ -1,6 +1,7 @@
 package sim
 
 import (
+	"bytes"
 	"fmt"
 	"sort"
 	"strings"
@@ -37,6 +38,11 @@ func genHistory(t *Tape, sc *Scenario, prop string) *histX {
 		sc.Srv.MaxLine = 200
 	}
 	sc.Srv.InsecureAuth = t.Bool()
+	if t.Chance(1, 5) {
+		// a size limit between one and two of the ordinary chunks: some chunks are refused
+		// with 552 - a failed chunk, which ends the transaction like any other
+		sc.Srv.MaxMsg = 30
+	}
 	if sc.Srv.LMTP && t.Bool() {
 		sc.BE.Flavor = beLMTP
 	}
@@ -658,6 +664,9 @@ func classifyHist(sc *Scenario, h *History, st *Stats) string {
 			break
 		}
 	}
+	if sc.Srv.MaxMsg > 0 && bytes.Contains(h.Conns[0].S2C.Buf, []byte("\r\n552 ")) {
+		st.Probes["chunk_or_message_refused_for_size_inside_history"]++
+	}
 	if x.SlowCB > 0 {
 		for _, e := range h.Events {
 			if e.Done && e.End-e.Begin > int64(10*time.Minute) {
@@ -697,7 +706,7 @@ func init() {
 		},
 		Real: histReal, Stub: histStub,
 		Assumptions: []string{"a second MAIL inside a transaction and the placement of VRFY/NOOP are not judged", "'signalled by Reset' is judged as: at least one Reset between a transaction end and the next envelope callback, and before the next MAIL/RCPT/DATA/BDAT is answered (other commands may be answered first)"},
-		Required:    []string{"stale_delivery_overlaps_next_transfer", "newsession_failed", "several_messages_in_one_history", "auth_exchange_with_334_inside_history", "backend_callback_slower_than_ReadTimeout", "backend_returns_early_with_message_unread"},
+		Required:    []string{"stale_delivery_overlaps_next_transfer", "newsession_failed", "several_messages_in_one_history", "auth_exchange_with_334_inside_history", "backend_callback_slower_than_ReadTimeout", "backend_returns_early_with_message_unread", "chunk_or_message_refused_for_size_inside_history"},
 		QuickRuns:   250000, ThoroughRuns: 6000000,
 	})
 }
